@@ -12,12 +12,12 @@ from concurrent.futures import ThreadPoolExecutor
 
 VERIF = os.path.dirname(os.path.dirname(os.path.dirname(os.path.abspath(__file__))))
 REPO = os.environ.get("VERIF_REPO", "/repo")
-WORK = os.path.join(VERIF, "work")
+WORK = os.environ.get("VERIF_WORK", os.path.join(VERIF, "work"))
 COQ = os.path.join(VERIF, "coq")
 EXTRACT = os.path.join(VERIF, "extract")
 TARGET = os.path.join(WORK, "target")
-REPLAYS = os.path.join(VERIF, "replays")
-EVIDENCE = os.path.join(VERIF, "evidence")
+REPLAYS = os.environ.get("VERIF_REPLAYS", os.path.join(VERIF, "replays"))
+EVIDENCE = os.environ.get("VERIF_EVIDENCE", os.path.join(VERIF, "evidence"))
 
 ENV = dict(os.environ)
 ENV.update({"CARGO_NET_OFFLINE": "true", "CARGO_TARGET_DIR": TARGET, "CARGO_TERM_COLOR": "never",
@@ -467,11 +467,23 @@ GENPROBE_DIR = os.path.join(VERIF, "harness", "genprobe")
 
 def build_genprobe():
     """the real generator sources of /repo's working tree compiled into a command-line probe"""
-    lock = os.path.join(GENPROBE_DIR, "Cargo.lock")
+    src_dir = GENPROBE_DIR
+    if REPO != "/repo":
+        # a scratch copy of the probe crate whose #[path] attributes point at the tree under test
+        src_dir = os.path.join(WORK, "genprobe_src")
+        if os.path.exists(src_dir):
+            shutil.rmtree(src_dir)
+        shutil.copytree(GENPROBE_DIR, src_dir, ignore=shutil.ignore_patterns("target"))
+        mp = os.path.join(src_dir, "src", "main.rs")
+        with open(mp) as f:
+            txt = f.read()
+        with open(mp, "w") as f:
+            f.write(txt.replace('"/repo/strum_macros/', '"%s/strum_macros/' % REPO))
+    lock = os.path.join(src_dir, "Cargo.lock")
     if not os.path.exists(lock):
         shutil.copy(os.path.join(REPO, "Cargo.lock"), lock)
     t = time.time()
-    r = sh(["cargo", "build", "--offline", "--release"], cwd=GENPROBE_DIR, timeout=1800)
+    r = sh(["cargo", "build", "--offline", "--release"], cwd=src_dir, timeout=1800)
     log("cargo build genprobe: rc=%d %.1fs" % (r.returncode, time.time() - t))
     if r.returncode != 0:
         return None, (r.stdout + r.stderr)[-3000:]
